@@ -104,3 +104,13 @@ def register_all(prop):
                "edited content, unregistered operations reach no stub, CloseProxy notifications arrive for explicit close and session end. "
                "non-trivial = >= 2 plugins registered for the operation and >= 1 outcome other than accept-unchanged."),
          assumptions=["bodies 'null' and '{}' (valid JSON) are not generated: the property only speaks of unparsable bodies"])
+    prop("C06", qshards=8, tshards=16, qlimit=480, tlimit=3000,
+         rule=("http_table: 3..30 operations (register / unregister / duplicate or re-register by another owner / lookup) on vhost.HTTPReverseProxy; "
+               "hosts over labels {a,b,c,d} with 1..4 labels, wildcards with >= 2 fixed labels, catch-all, random letter case; locations {'', /, /a, /ab, "
+               "/a/b, /b}; users {'', u1, u2}; lookups are real requests through ServeHTTP (Host with port suffix / trailing dot / case, Basic user) "
+               "answered by in-memory backends that name their owner; connections to backends are reused. Oracle: reference winner from the property "
+               "text. muxer_table: the same table semantics through vhost.Muxer with TLS ClientHellos (https) and HTTP CONNECT (tcpmux) on a loopback "
+               "listener. wire: real frps, scripted sessions, register / close / take-over by another session interleaved with requests incl. "
+               "keep-alive user connections, h2c and a vhost port shared with the control port. non-trivial = lookup with >= 2 matching routes of "
+               "different specificity, or unmatched lookup on a non-empty table; distinct = distinct case."),
+         assumptions=["internationalised host names are outside the generated domain"])
